@@ -23,6 +23,7 @@ EXPLANATION = (
     "applies to every class whose obj is 'proc' and empties every rendered child list. Absence of text "
     "leaks through every rendering path is not decided."
     ' R5: graph links are visibility-gated and a structure constructor follows its type. The prune() methods are executed symbolically (assignments, setattr with constant names, loops over constant name tuples, inlined helper methods; undecidable guards fork the path).'
+    " Added after waves 6/7 - links built in Python / hrefs set on link elements are produced only after a test of `visible`; hrefs nested in attributes are covered; repeated `display:` lines accumulate; members are marked visible only after the display filter."
 )
 ASSUMPTIONS = ["element classes of child lists are those in LIST_ELEM (cross-checked against the constructor calls in the dispatch loop)"]
 
@@ -269,8 +270,36 @@ def r1_prune_coverage(ctx, rep):
                        py.nloc(py.resolve_method(cls, "prune")[1]))
 
 
+def _visible_after_filter(ctx, rep):
+    """`visible` is what links and list pages go by; members of a collection are marked visible only *after* the collections have
+    been passed through the display filter - marking them first leaves filtered-out members visible (links to their pages,
+    which are never written).  Decided on the order of events in prune() with its helpers inlined."""
+    py = ctx.py
+    n = 0
+    for cname, ci in sorted(py.classes.items()):
+        if "prune" not in ci.methods or ci.module != "sourceform":
+            continue
+        fn = ci.methods["prune"]
+        ev = astq.trace(fn, astq.class_method_resolver(py, cname, "sourceform"))
+        filters = [i for i, e in enumerate(ev) if e.kind in ("call", "inline") and isinstance(e.node, ast.Call) and call_name(e.node).split(".")[-1] == "filter_display"]
+        marks = [i for i, e in enumerate(ev) if e.kind == "assign" and e.target and e.target.endswith(".visible")
+                 and isinstance(e.value, ast.Constant) and e.value.value is True and not e.target.startswith("self.")]
+        if not filters or not marks:
+            continue
+        n += 1
+        ok = max(filters) < min(marks)
+        first = ev[min(marks)]
+        rep.ob(f"{cname}.prune: members are marked visible after the display filter", ok,
+               "filter first, then mark" if ok else
+               f"`{ast.unparse(first.node)[:40]}` runs before the last `filter_display(...)` of prune(): members that `display` "
+               f"removes stay visible, so pages that still mention them link to a page that is never written", py.nloc(first.node))
+    if n < 1:
+        raise AnalysisError("no prune() that both filters and marks members visible found")
+
+
 def r2_lists_after_prune(ctx, rep):
     py = ctx.py
+    _visible_after_filter(ctx, rep)
     fn = py.func("Project.correlate")
     prune_line = None
     for n in ast.walk(fn):
@@ -609,6 +638,12 @@ def r7_python_link_producers(ctx, rep):
         raise AnalysisError(f"only {n} Python link producer(s) found")
 
 
+def r8_display_lists_accumulate(ctx, rep):
+    """`display:` written once per word is a list of all the words (shared with C15.R13)"""
+    from . import c15
+    c15.r13_metadata_accumulates(ctx, rep)
+
+
 RULES = [
     RuleSpec("C05.R5", r5_graph_links_and_constructor, "graph links are visibility-gated; constructors follow their type", floor=1),
     RuleSpec("C05.R1", r1_prune_coverage, "prune covers every rendered child collection", floor=20),
@@ -617,4 +652,5 @@ RULES = [
     RuleSpec("C05.R4", r4_display_logic, "display/hide_undoc/proc_internals logic", floor=4),
     RuleSpec("C05.R6", r6_display_inheritance, "display selection is inherited through the parent, not re-installed", floor=2),
     RuleSpec("C05.R7", r7_python_link_producers, "links built in Python are produced only for visible entities", floor=2),
+    RuleSpec("C05.R8", r8_display_lists_accumulate, "repeated `display:` lines accumulate (shared with C15.R13)", floor=2),
 ]
